@@ -722,7 +722,7 @@ Section Routes.
                      (tri (map fst (normalize_nodes (l_nodes L)))) ev v)
          (spec_emod L S v ev).
   Proof.
-    intros HL HSc. rewrite spec_emod_unfold. unfold data_event.
+    intros HL HSc. rewrite spec_emod_unfold. unfold data_event, point_event.
     assert (Ex : normq (scale_featx (l_feat L) (fst ev) (s_cw S) (l_cw L))
                        (lmax (map nx (l_nodes L)))
                  = normq (spec_x L S ev) (lmax (map nx (l_nodes L)))).
